@@ -71,38 +71,19 @@ def run_case(case, ctx):
 # parked when the channel closes ...). (name, program, stdout, outcome): outcome "ok" or "deadlock".
 SCENARIOS = [
     ("close-with-sync-send-in-flight-24c5a7b",
-     "let c = chan(); let d = chan(1);
-fn a(c, d) { c <- 1; print('sent'); d <- 2; }
-fn cl(c) { c.close(); }
-"
-     "launch a(c, d); launch cl(c);
-print(<- c); print(<- d);", "1
-sent
-2
-", "ok"),
+     "let c = chan(); let d = chan(1);\nfn a(c, d) { c <- 1; print('sent'); d <- 2; }\nfn cl(c) { c.close(); }\n"
+     "launch a(c, d); launch cl(c);\nprint(<- c); print(<- d);", "1\nsent\n2\n", "ok"),
     ("producer-consumer-joined-by-main",
-     "let a = chan(); let r1 = chan(1); let r2 = chan(1);
-fn p(a, r) { for i in 3.times() { a <- i; } r <- 'p done'; }
-"
-     "fn q(a, r) { let s = 0; for i in 3.times() { s = s + (<- a); } r <- s; }
-launch p(a, r1); launch q(a, r2);
-"
-     "print(<- r1); print(<- r2);", "p done
-3
-", "ok"),
+     "let a = chan(); let r1 = chan(1); let r2 = chan(1);\nfn p(a, r) { for i in 3.times() { a <- i; } r <- 'p done'; }\n"
+     "fn q(a, r) { let s = 0; for i in 3.times() { s = s + (<- a); } r <- s; }\nlaunch p(a, r1); launch q(a, r2);\n"
+     "print(<- r1); print(<- r2);", "p done\n3\n", "ok"),
     ("receive-from-closed-drained",
-     "let c = chan(2); c <- 1; c <- 2; c.close(); print(<- c); print(<- c); print(<- c);", "1
-2
-nil
-", "ok"),
+     "let c = chan(2); c <- 1; c <- 2; c.close(); print(<- c); print(<- c); print(<- c);", "1\n2\nnil\n", "ok"),
     ("send-on-closed-raises",
-     "let c = chan(1); c.close(); try { c <- 1; print('sent'); } catch e { print('closed'); }", "closed
-", "ok"),
-    ("main-blocked-forever", "let c = chan(); print('before'); print(<- c);", "before
-", "deadlock"),
+     "let c = chan(1); c.close(); try { c <- 1; print('sent'); } catch e { print('closed'); }", "closed\n", "ok"),
+    ("main-blocked-forever", "let c = chan(); print('before'); print(<- c);", "before\n", "deadlock"),
     ("fiber-blocked-main-finishes",
-     "let c = chan(); fn f(c) { print(<- c); } launch f(c); print('main done');", "main done
-", "ok"),
+     "let c = chan(); fn f(c) { print(<- c); } launch f(c); print('main done');", "main done\n", "ok"),
 ]
 
 
@@ -116,10 +97,7 @@ def run_scenario(name, src, want_out, want, ctx):
         got = "deadlock" if "Fatal error deadlock." in (r.get("stderr") or "") else r.get("outcome")
         if fail is None and (got != want or (r.get("stdout") or "") != want_out):
             fail = Failure("%s/scenario/%s" % (PROPERTY, name),
-                           "scenario %s on %s: expected %s with stdout %r, got %s with stdout %r
-%s
---- source
-%s" %
+                           "scenario %s on %s: expected %s with stdout %r, got %s with stdout %r\n%s\n--- source\n%s" %
                            (name, variant, want, want_out, got, r.get("stdout"), (r.get("stderr") or "")[-300:], src),
                            {"source": src, "case": enc(("scenario", name))})
         if fail is not None:
